@@ -1140,7 +1140,21 @@ impl CanonicalizeContext {
 							}
 						}
 					}
-					let mathml = if element_name == "mmultiscripts" {clean_mmultiscripts(mathml).unwrap()} else {mathml};
+					let mathml = if element_name == "mmultiscripts" {
+						if children.is_empty() {
+							// the only content was whitespace that got removed (e.g., <mmultiscripts><mtext> </mtext></mmultiscripts>)
+							return if parent_requires_child {Some( CanonicalizeContext::make_empty_element(mathml) )} else {None};
+						}
+						let cleaned = clean_mmultiscripts(mathml).unwrap();
+						if name(&cleaned) != "mmultiscripts" {
+							// there were no scripts (e.g., <mmultiscripts><mi>x</mi></mmultiscripts>) -- what is left is the (already cleaned) base
+							if name(&cleaned) == "none" {		// from an empty mrow
+								return if parent_requires_child {Some( CanonicalizeContext::make_empty_element(cleaned) )} else {None};
+							}
+							return Some(cleaned);
+						}
+						cleaned
+					} else {mathml};
 					if !is_chemistry_off(mathml) {
 						let likely_chemistry = likely_adorned_chem_formula(mathml);
 						// debug!("likely_chemistry={}, {}", likely_chemistry, mml_to_string(&mathml));
